@@ -58,8 +58,17 @@ var jBigUniverse = func() []string {
 
 var jUseBig bool
 
+// jSepUniverse: topic names that contain what an implementation might use as a separator or key
+// delimiter, next to the lists they could be confused with ("a,b" vs {"a","b"})
+var jSepUniverse = []string{"a", "b", "a,b", "b,a", "a b", "a\x00b", "a|b", ""}
+
+var jUseSep bool
+
 func pickTopics(rng *rand.Rand, max int) []string {
 	u := jTopicUniverse
+	if jUseSep {
+		u = jSepUniverse
+	}
 	if jUseBig {
 		u = jBigUniverse
 		max *= 5
@@ -84,7 +93,8 @@ func pickTopics(rng *rand.Rand, max int) []string {
 func genJoe(rng *rand.Rand, g jGen) *jScenario {
 	sc := &jScenario{Probe: true}
 	jUseBig = rng.IntN(6) == 0
-	defer func() { jUseBig = false }()
+	jUseSep = !jUseBig && rng.IntN(6) == 0
+	defer func() { jUseBig, jUseSep = false, false }()
 	if rng.IntN(2) == 0 {
 		sc.ErrKind = mon.ErrKinds[rng.IntN(len(mon.ErrKinds))]
 	}
@@ -208,6 +218,16 @@ func genJoe(rng *rand.Rand, g jGen) *jScenario {
 				s.LastIDSet, s.LastIDClass = true, "never_issued"
 			default:
 				s.LastIDClass = "unset"
+			}
+		}
+		if i > 0 && rng.IntN(5) == 0 {
+			// the application builds this topic list by appending to the previous subscriber's
+			// (two views of different length of one array when there is room)
+			prev := sc.Subs[i-1].Topics
+			if len(prev) > 0 {
+				extra := pickTopics(rng, 1)[0]
+				s.Topics = append(append([]string{}, prev...), extra)
+				s.AliasPrev = true
 			}
 		}
 		sc.Subs = append(sc.Subs, s)
